@@ -428,6 +428,17 @@ func (s *c23sim) pump() {
 	s.settle()
 	if err == nil {
 		s.pending = false
+		// a refresh that reports success has just verified its master: the node behind the master connection must be up
+		// and must have the master role right now (nothing changes in the world while a refresh round runs)
+		if a, ok := s.cl.mAddr.Load().(string); ok && !s.cl.replica {
+			s.w.mu.Lock()
+			for i, na := range c23nodeAddr {
+				if na == a && (s.w.nfail[i] || s.w.role[i] != "master") {
+					s.violate("refresh reports success with a master target that does not answer ROLE master", fmt.Sprintf("after the refresh the master connection points to node%d (down=%v, role %s); world log %v", i, s.w.nfail[i], s.w.role[i], s.w.log))
+				}
+			}
+			s.w.mu.Unlock()
+		}
 	}
 }
 
@@ -598,6 +609,8 @@ func (s *c23sim) apply(ev string) {
 			if err != nil {
 				s.pending = true
 				s.pump()
+			} else {
+				s.violate("switch to a node that is down or does not answer ROLE master reported success", fmt.Sprintf("+switch-master announced node%d (down=%v, role %s); _switchTarget returned nil", m, !good && w.nfail[m], w.role[m]))
 			}
 		}
 	case 'W':
@@ -780,6 +793,7 @@ func TestVerif_C23(t *testing.T) {
 				frontier = next
 			}
 		}
+		r.Assume("a refresh round or a switch that reports success has verified its master target at that instant: the node must be up and answer ROLE master then (the world does not change while one round runs)")
 		r.Assume("oracle as in the property: a user command on the primary path may only reach a node whose LAST ROLE answer to this client was master and that some sentinel answer or +switch-master message named as master; a read sent to replicas may only reach a node whose last ROLE answer was slave; 'last ROLE answer' is per node, not per connection")
 		r.Assume("fake connections behave like mux: after Close() every call fails with ErrClosing and Error() returns it; calls to a node that is down fail with a transport error and reach nothing")
 		r.Assume("Receive registers the callback and returns nil at once; a sentinel failure under the live subscription, and every failed switch, is followed by refresh rounds run by the harness (one at once and one after every later world change) instead of the client's free-running refreshRetry goroutine: a deterministic schedule of that loop, whose rounds are idempotent while the world does not change")
